@@ -46,6 +46,12 @@ func c19id(s string) int {
 	return id
 }
 
+type c19Held struct {
+	v    dst.Decorations
+	want []string
+	step int
+}
+
 type c19Obs struct {
 	Contents []int
 	Cap      int
@@ -67,6 +73,7 @@ func c19Run(h c19Hist) (obs []c19Obs, final [][]int, failKey, failWhat string) {
 	}
 	var d dst.Decorations
 	var ref []string
+	var helds []c19Held
 	setFail := func(k, w string) {
 		if failKey == "" {
 			failKey, failWhat = k, w
@@ -82,8 +89,12 @@ func c19Run(h c19Hist) (obs []c19Obs, final [][]int, failKey, failWhat string) {
 		argCopy := append([]string(nil), arg...)
 		// a value copy of the list taken before the call (b.Decs.Start = a.Decs.Start) must read the
 		// same afterwards: no method rewrites elements another list value can see
-		held := d
-		heldWant := append([]string(nil), d...)
+		// (value copies taken at earlier steps are kept too: Clear that keeps its storage shows only at the
+		// next Append)
+		helds = append(helds, c19Held{d, append([]string(nil), d...), step})
+		if len(helds) > 6 {
+			helds = helds[1:]
+		}
 		switch op.Kind {
 		case "Append":
 			d.Append(arg...)
@@ -106,8 +117,12 @@ func c19Run(h c19Hist) (obs []c19Obs, final [][]int, failKey, failWhat string) {
 			arrays[op.Arr][op.Idx] = c19str(op.Val)
 			shadow[op.Arr][op.Idx] = c19str(op.Val)
 		}
-		if op.Kind != "Write" && !eqStrings([]string(held), heldWant) {
-			setFail("c19-copy-aliasing", fmt.Sprintf("step %d (%s): a value copy of the list taken before the call now reads %q, it read %q", step, op.Kind, []string(held), heldWant))
+		if op.Kind != "Write" {
+			for _, h := range helds {
+				if !eqStrings([]string(h.v), h.want) {
+					setFail("c19-copy-aliasing", fmt.Sprintf("step %d (%s): a value copy of the list taken before step %d now reads %q, it read %q", step, op.Kind, h.step, []string(h.v), h.want))
+				}
+			}
 		}
 		if !eqStrings([]string(d), ref) {
 			setFail("c19-contents", fmt.Sprintf("step %d (%s): list = %q, want %q", step, op.Kind, []string(d), ref))
@@ -391,8 +406,13 @@ func appendCase(m map[string][]string, name string, v interface{}) map[string][]
 }
 
 func init() {
-	props["C19"] = c19
+	// "what All returns is what is rendered" also for a comment that spans lines on the nodes whose End
+	// comments go into a Comment field (the C04 scenarios: the list is filled through Replace)
+	props["C19"] = func(c *Ctx) { c19(c); c04CommentFieldMultiline(c) }
 	replays["C19"] = func(c *Ctx, input json.RawMessage) (bool, string) {
+		if handled, fails, msg := replayFixed(c, input, c04CommentFieldMultiline); handled {
+			return fails, msg
+		}
 		var h c19Hist
 		if err := json.Unmarshal(input, &h); err != nil {
 			return false, "bad input: " + err.Error()
